@@ -370,7 +370,7 @@ class Adapter:
             must_sum = tot > 0 and not fresh
             if (must_sum and not sum_ok) or (not must_sum and not (sum_ok or zero)):
                 sig = "%s:shares-sum" % name
-                if self.subsecond_shape(vals, qs, tot):
+                if self.subsecond_shape(vals, exp, tot):
                     sig = SIG_SUBSEC
                 bad.append((sig, "%s: non-guest shares add up to %s instead of 100: %r" % (where, float(s), r)))
         if fresh:
@@ -388,23 +388,18 @@ class Adapter:
                 self.tags.add("res:" + ("0" if x == 0 else "100" if x == 100 else "between"))
         if wrong and not bad:
             sig = "%s:%s:%s:value" % (name, e["form"], e["mode"])
-            if e["fn"] == "ctp" and self.subsecond_shape(vals, qs, tot):
+            if e["fn"] == "ctp" and self.subsecond_shape(vals, exp, tot):
                 sig = SIG_SUBSEC
             bad.append((sig, "%s: %s" % (where, ", ".join(wrong))))
         return bad
 
-    def subsecond_shape(self, vals, qs, tot):
+    def subsecond_shape(self, vals, exp, tot):
         """the signed shape: fewer ticks than CLK_TCK elapsed and every share
         is 100 * delta_seconds instead of 100 * delta / total"""
-        if not 0 < tot * self.S < self.clk:
+        if not 0 < tot * self.S < self.clk or "d" not in exp:
             return False
-        for v, q in zip(vals, qs):
-            if q[1] != tot:
-                continue
-            d = Fraction(q[0], 100) * self.S   # the field's clipped delta in ticks
-            if abs(Fraction(v) - min(Fraction(100), 100 * d / self.clk)) > TOL:
-                return False
-        return True
+        return all(abs(Fraction(v) - min(Fraction(100), Fraction(100 * d * self.S, self.clk))) <= TOL
+                   for v, d in zip(vals, exp["d"]))
 
     def do_pcall(self, e):
         ps = self.ps
@@ -567,7 +562,7 @@ def edge_class(g, ei):
         return (cfg, "call", e["t"], e["fn"], e["form"], e["mode"], e["fresh"], rows)
     if e["op"] == "pcall":
         q = e["res"]
-        return (cfg, "pcall", e["o"], e["mode"], e.get("first"), q if isinstance(q, str) else (q[0] == 0, q[1] == 0, q[0] > 100 * q[1]))
+        return (cfg, "pcall", e["o"], e["mode"], e.get("first"), (q[0] == 0, q[1] == 0, q[0] > 100 * q[1]))
     return (cfg, e["op"], e.get("t"), e.get("fn"), e.get("form"), e.get("mode"))
 
 
@@ -633,8 +628,8 @@ def rand_matrix(rnd, ad, big):
     return dm
 
 
-def t10(x):
-    return int(round(x * 10)) if tenths_ok(x) and abs(x) < 10 ** 5 else -1
+def t10(x, limit=10 ** 5):
+    return int(round(x * 10)) if tenths_ok(x) and abs(x) < limit else -1
 
 
 def rand_trace(job):
@@ -700,9 +695,8 @@ def rand_trace(job):
                     row = []
                     for f in range(nf):
                         b = base(i, f) if form == "per" else sum(base(c, f) for c in range(ncpu))
-                        tk = round(r[f] * clk)
-                        v = (tk - b) // S if functional.close(r[f], tk, clk) and (tk - b) % S == 0 else -1
-                        row.append(v if 0 <= v < 2 ** 30 else -1)
+                        v = round((Fraction(r[f]) * clk - b) / S)
+                        row.append(v if 0 <= v < 2 ** 30 and functional.close(r[f], b + S * v, clk) else -1)
                     x.append(row)
                 if any(tuple(r._fields) != tuple(FIELDS[:nf]) for r in rows):
                     e["err"] = "fields"
@@ -715,7 +709,7 @@ def rand_trace(job):
             ad.set_wall(ad.wall + dt)
             evs.append({"op": "tick", "dt": dt})
         elif k < 0.90:
-            du, ds = rnd.choice([0, 1, 3, 100, rnd.randint(0, 3000)]), rnd.choice([0, 1, 50, rnd.randint(0, 2000)])
+            du, ds = rnd.choice([0, 1, 3, 100, rnd.randint(0, 300)]), rnd.choice([0, 1, 50, rnd.randint(0, 200)])
             if du + ds == 0:
                 du = 1
             ad.ptk = [ad.ptk[0] + du, ad.ptk[1] + ds]
@@ -734,7 +728,7 @@ def rand_trace(job):
                 st, val = ad.run_on("main", lambda: p.cpu_percent(interval=rnd.choice([None, 0.0])))
             else:
                 dt = rnd.choice([1, 6, 64, rnd.randint(1, 2000)])
-                du, ds = rnd.choice([0, 1, 64, rnd.randint(0, 3000)]), rnd.choice([0, 2, rnd.randint(0, 1000)])
+                du, ds = rnd.choice([0, 1, 64, rnd.randint(0, 300)]), rnd.choice([0, 2, rnd.randint(0, 100)])
 
                 def burn(du=du, ds=ds):
                     ad.ptk = [ad.ptk[0] + du, ad.ptk[1] + ds]
@@ -746,7 +740,7 @@ def rand_trace(job):
             if st == "exc":
                 e["err"] = type(val).__name__
             elif not e["err"]:
-                e["x"] = t10(val) if abs(val) < 10 ** 7 else -1
+                e["x"] = t10(val, 10 ** 8)
                 e["raw"] = repr(val)
             evs.append(e)
     return {"cfg": list(key), "S": S, "SP": SP, "seed": seed, "ev": evs}
@@ -761,15 +755,15 @@ def trace_sig(line, l, why):
     e = line["ev"][l - 1]
     fn = {"cp": "cpu_percent", "ctp": "cpu_times_percent"}.get(e.get("fn"), "Process.cpu_percent"
                                                                if e["op"] == "pcall" else "cpu_times")
-    clk = line["cfg"][2]
+    clk, S = line["cfg"][2], line["S"]
     if isinstance(why, list) and e.get("fn") == "ctp" and e["err"] == "":
         _, i, tot, d = why
         x = e["x"][i - 1]
-        if 0 < tot < clk and all(abs(Fraction(xv, 10) - min(Fraction(100), Fraction(100 * dv, clk))) <= TOL
-                                 for xv, dv in zip(x, d)):
+        if 0 < tot * S < clk and all(abs(Fraction(xv, 10) - min(Fraction(100), Fraction(100 * dv * S, clk))) <= TOL
+                                     for xv, dv in zip(x, d)):
             return SIG_SUBSEC
     text = why[0] if isinstance(why, list) else why
-    return "%s:%s:%s:%s" % (fn, e.get("form", e.get("o")), e.get("mode", ""), text.split(" ")[0])
+    return "%s:%s:%s:%s" % (fn, e.get("form", "obj"), e.get("mode", ""), text.split(" ")[0])
 
 
 def trace_validate(ctx, pools, n_traces, length, tags, only=None):
